@@ -338,32 +338,33 @@ theorem best_eq {P reg : List Str} (h : WF P reg) (a : Str) :
       rw [find?_sortedMimes, hm]
     exact resolve_of_sat h (List.find?_some hfind)
 
-/-- when the walk over the sorted ranges decides -/
+/-- when the walk over the sorted ranges decides (a missing header is ranked as `*/*`) -/
 theorem entityWriter_of_walk {a : Str} {P reg : List Str} {d : Str} {w : List Str}
-    (hw : walk reg P (sortedMimes a) = w) (hne : w ≠ []) : entityWriter a P reg d = w := by
+    (hw : walk reg P (sortedMimes (if a.isEmpty then starStar else a)) = w) (hne : w ≠ []) :
+    entityWriter a P reg d = w := by
   unfold entityWriter entityWriterTagged
   simp only [hw]
   have : (!w.isEmpty) = true := by cases w <;> simp_all
   simp [this]
 
-/-- a non-empty header one of whose well-formed ranges is satisfiable: the writer is the best one -/
-theorem entityWriter_of_best {a : Str} {P reg : List Str} {d b : Str} (h : WF P reg) (ha : a ≠ [])
+/-- one of the well-formed ranges of the header (`*/*` when there is none) is satisfiable: the writer
+    is the best one — with or without an Accept header -/
+theorem entityWriter_of_best {a : Str} {P reg : List Str} {d b : Str} (h : WF P reg)
     (hb : Spec.best a P reg = some b) : entityWriter a P reg d = [b] ∧ b ∈ P := by
   rw [best_eq h] at hb
-  have ha' : (if a.isEmpty = true then starStar else a) = a := by cases a <;> simp_all
-  rw [ha'] at hb
-  have hw := walk_eq h.sub h.ne (sortedMimes a)
-  cases hf : (sortedMimes a).find? (satB P) with
-  | none => simp [hf] at hb
+  have hw := walk_eq h.sub h.ne (sortedMimes (if a.isEmpty then starStar else a))
+  cases hf : (sortedMimes (if a.isEmpty then starStar else a)).find? (satB P) with
+  | none => rw [hf] at hb; simp at hb
   | some r =>
-    simp only [hf, Option.some.injEq] at hb hw
+    rw [hf] at hb hw
+    simp only [Option.some.injEq] at hb hw
     subst hb
     exact ⟨entityWriter_of_walk hw (by simp), resolveM_mem h.ne _⟩
 
 /-! ### the fallbacks after the walk -/
 
 theorem entityWriter_fallback {a : Str} {P reg : List Str} (d : Str)
-    (hw : walk reg P (sortedMimes a) = []) (hk : accessorAt reg a = []) :
+    (hw : walk reg P (sortedMimes (if a.isEmpty then starStar else a)) = []) (hk : accessorAt reg a = []) :
     entityWriter a P reg d =
       if d = mimeJSON then accessorAt reg mimeJSON
       else if d = mimeXML then accessorAt reg mimeXML
@@ -382,44 +383,7 @@ theorem entityWriter_fallback {a : Str} {P reg : List Str} (d : Str)
   rw [if_neg h3, if_neg h3]
   cases firstProduced reg P <;> simp
 
-theorem sortedMimes_nil : sortedMimes [] = [⟨[], 1000⟩] := by decide
-
 theorem sortedMimes_star : sortedMimes starStar = [⟨starStar, 1000⟩] := by decide
-
-theorem containsSub_nil {k : Str} (hk : k ≠ []) : containsSub k [] = false := by
-  cases k with
-  | nil => exact absurd rfl hk
-  | cons c cs => rfl
-
-theorem walk_nil_accept {P reg : List Str} (h : WF P reg) : walk reg P (sortedMimes []) = [] := by
-  rw [walk_eq h.sub h.ne, sortedMimes_nil]
-  have hn : ([] : Str) ∉ P := h.nil_not_mem
-  have hc : P.contains ([] : Str) = false := by simpa using hn
-  have : satB P ⟨[], 1000⟩ = false := by
-    simp only [satB, hc, Bool.false_or]
-    decide
-  simp [this]
-
-theorem accessorAt_nil_accept {P reg : List Str} (h : WF P reg) : accessorAt reg [] = [] := by
-  unfold accessorAt
-  have hn : ([] : Str) ∉ reg := h.nil_not_mem_reg
-  have : reg.contains ([] : Str) = false := by simpa using hn
-  rw [this]
-  simp only [Bool.false_eq_true, if_false, List.filter_eq_nil_iff]
-  intro k hk
-  simp [containsSub_nil (wfMedia_ne_nil (h.rMedia k hk))]
-
-/-- no Accept header: the default type if one is set, else the first produced type -/
-theorem entityWriter_nil {P reg : List Str} (h : WF P reg) (d : Str) :
-    entityWriter [] P reg d =
-      if d = mimeJSON then accessorAt reg mimeJSON
-      else if d = mimeXML then accessorAt reg mimeXML
-      else if d = mimeZIP then accessorAt reg mimeZIP
-      else [P.headD []] := by
-  rw [entityWriter_fallback d (walk_nil_accept h) (accessorAt_nil_accept h), firstProduced_eq _ h.sub]
-  cases P with
-  | nil => exact absurd rfl h.ne
-  | cons p ps => rfl
 
 theorem best_nil {P reg : List Str} (h : WF P reg) : Spec.best [] P reg = some (P.headD []) := by
   rw [best_eq h]
@@ -428,6 +392,11 @@ theorem best_nil {P reg : List Str} (h : WF P reg) : Spec.best [] P reg = some (
   rw [List.find?_cons_of_pos (h := hs)]
   have hn : starStar ∉ P := h.star_not_mem
   simp [resolveM, hn]
+
+/-- no Accept header: the first produced type, whatever `DefaultResponseContentType` says (F07 repaired) -/
+theorem entityWriter_nil {P reg : List Str} (h : WF P reg) (d : Str) :
+    entityWriter [] P reg d = [P.headD []] :=
+  (entityWriter_of_best h (best_nil h)).1
 
 theorem defaultSet_false_iff {d : Str} : defaultSet d = false ↔ d ≠ mimeJSON ∧ d ≠ mimeXML ∧ d ≠ mimeZIP := by
   simp [defaultSet, and_assoc]
@@ -471,9 +440,12 @@ theorem default_unset {reg P : List Str} {d : Str} (hs : defaultSet d = false) :
   obtain ⟨h1, h2, h3⟩ := defaultSet_false_iff.mp hs
   rw [if_neg h1, if_neg h2, if_neg h3]
 
-/-- outside F07b a non-empty admitted header has a satisfiable well-formed range -/
-theorem best_isSome_of {a : Str} {P reg : List Str} (ha : a ≠ [])
+/-- outside F07b an admitted header has a satisfiable well-formed range (a missing header is `*/*`) -/
+theorem best_isSome_of {a : Str} {P reg : List Str} (h : WF P reg)
     (hadm : routerAdmits a P = true) (h07b : Spec.F07b a P reg = false) : ∃ b, Spec.best a P reg = some b := by
+  by_cases ha : a = []
+  · subst ha
+    exact ⟨_, best_nil h⟩
   have hacc : Spec.acceptOK P a = true := by
     unfold routerAdmits at hadm
     unfold Spec.acceptOK
